@@ -1531,6 +1531,10 @@ rv = .false.
                 if c_ast.attrs["context"]:
                     fmt.f_array_shape = wformat(
                         ", {c_var_context}%shape(1:{rank})", fmt)
+        elif c_attrs["cdesc"] is not None:
+            # Without rank or dimension the argument is a scalar.
+            fmt.rank = "0"
+            fmt.size = "1"
 
         return ntypemap
 
@@ -1699,7 +1703,9 @@ rv = .false.
         for c_arg in C_node.ast.params:
             arg_name = c_arg.name
             fmt_arg0 = fmtargs.setdefault(arg_name, {})
-            fmt_arg = fmt_arg0.setdefault("fmtf", util.Scope(fmt_func))
+            # Several Fortran wrappers may call the same C function
+            # (fortran_generic): each one gets its own scope.
+            fmt_arg = fmt_arg0["fmtf"] = util.Scope(fmt_func)
             fmt_arg.f_var = arg_name
             fmt_arg.c_var = arg_name
             fmt_arg.F_pointer = "SHPTR_" + arg_name
